@@ -352,9 +352,18 @@ def verify_contract(c, contracts, cfg=None):
     error = None
     vacuous = False
     samples = []
+    budget_s = cfg.get("budget_s")
+    stopped_after_refutation = False
     while worklist:
         if paths >= c.max_paths:
             oos.append(f"path budget {c.max_paths} exhausted")
+            break
+        if budget_s is not None and time.time() - t0 > budget_s:
+            oos.append(f"time budget of {budget_s}s per function exhausted after {paths} paths")
+            break
+        if any(a["status"] == "refuted" and (a["failing"] or {}).get("counterexample") is not None for a in agg.values()) and paths >= 1:
+            # a counter-model exists: the verdict on this function is settled, the remaining paths are not needed for it
+            stopped_after_refutation = True
             break
         decisions = worklist.pop()
         cfg["already_refuted"] = {l.split(":", 1)[1] if ":" in l else l for l, a in agg.items() if a["status"] == "refuted"}
@@ -408,7 +417,12 @@ def verify_contract(c, contracts, cfg=None):
         pass
     # every clause of the contract must have been exercised on at least one path (zero-obligation guard)
     expected = [f"post:{cl.label}" for cl in c.returns_]
-    missing = [l for l in expected if l not in agg]
+    missing = [l for l in expected if l not in agg] if not stopped_after_refutation else []
+    if stopped_after_refutation:
+        for a in agg.values():
+            if a["status"] == "discharged" and not any(k in ("ast-scan",) for k in a["backends"]):
+                a["status"] = "unknown"
+                a["failing"] = {"reason": "exploration of this function stopped after another obligation was refuted with a counter-model"}
     # combined hash of everything whose text determines these obligations: the function and the callees inlined into it
     import hashlib
     comb = hashlib.sha256((sha or "").encode())
